@@ -161,8 +161,12 @@ class Context:
         self.work.mkdir(parents=True, exist_ok=True)
         # import the library under test once, in the parent, so forked workers share it and no
         # per-case alarm can interrupt a half-done import
+        import logging
+
         import mxlpy  # noqa: F401
         import mxlpy.surrogates._qss  # noqa: F401
+
+        logging.getLogger("mxlpy").setLevel(logging.ERROR)
 
     # -- scratch ---------------------------------------------------------------------
     def cleanup(self):
